@@ -265,9 +265,14 @@ def record(check, n, seed):
 
 def main(tier, seed):
     check = vlib.Check(PROP, tier, seed)
-    consts = {'quick': dict(MaxOps=3, Wide='FALSE'), 'thorough': dict(MaxOps=3, Wide='TRUE')}[tier]
-    res, results = vlib.map_states('MC_C02', worker, constants=consts)
-    check.add_tlc(res, 'MC_C02 %s' % consts)
+    runs = {'quick': [dict(MaxOps=2, Level=1), dict(MaxOps=3, Level=0)],
+            'thorough': [dict(MaxOps=2, Level=2), dict(MaxOps=3, Level=1)]}[tier]
+    results = []
+    for consts in runs:
+        res, rs = vlib.map_states('MC_C02', worker, constants=consts)
+        check.add_tlc(res, 'MC_C02 %s' % consts)
+        results += rs
+    consts = runs
     model_bad = [b for r in results for b in r['model_bad']]
     if model_bad:
         raise vlib.MachineryError('TLA+ model disagrees with plain Python on %d cases, e.g. %s' % (len(model_bad), model_bad[0]))
